@@ -218,9 +218,11 @@ def set_arg(states, form):
 
 
 def lag_strategy():
+    # "any positive lag time": also lag times written in seconds (1e-12 .. 1e-6) or in huge units
     return st.one_of(st.floats(0.01, 100.0, allow_nan=False, allow_infinity=False),
                      st.floats(0.01, 1.0, allow_nan=False, allow_infinity=False),
-                     st.integers(1, 100))
+                     st.integers(1, 100),
+                     st.sampled_from([1e-12, 5e-12, 2e-9, 1e-8, 3e-7, 1e-4, 1e6, 1e9]))
 
 
 # --------------------------------------------------------------------------
